@@ -166,8 +166,14 @@ def oracle_state(tr: Trace, agent, Z64, where: str):
     if asym > 1e-5 * scale:
         tr.problems.append(f"{where}: sigma_inv not symmetric (max |S - S'| = {asym:.3g}, scale {scale:.3g})")
     ev = np.linalg.eigvalsh((Sn + Sn.T) / 2)
-    if not ev.min() > 0:
-        tr.problems.append(f"{where}: sigma_inv not positive definite (min eigenvalue {ev.min():.3g})")
+    noise = 1e-5 * scale                     # float32 resolution of the entries
+    lam_min = None
+    if Z64 is not None and Z64.shape == Sn.shape:
+        lam_min = 1.0 / float(np.linalg.eigvalsh(Z64).max())      # smallest eigenvalue the exact inverse has
+    strict = lam_min is None or lam_min > 4 * noise
+    if (strict and not ev.min() > 0) or ev.min() < -noise:
+        tr.problems.append(f"{where}: sigma_inv not positive definite (min eigenvalue {ev.min():.3g}, "
+                           f"exact inverse would have {lam_min})")
     if Z64 is not None and Z64.shape == Sn.shape:
         n = Sn.shape[0]
         resid = float(np.abs(Sn @ Z64 - np.eye(n)).max())
@@ -239,9 +245,12 @@ def run_impl(case, fault=None) -> Trace:
                     tol_b = 1e-5 * max(1e-30, float(np.abs(S_before).max())) * float((g64 ** 2).sum(1).max())
                     if (b_impl < -tol_b).any():
                         tr.problems.append(f"{where}: g' sigma_inv g < 0 for an arm: {b_impl.tolist()}")
+                    smax = float(np.abs(S_before).max())
                     for k in range(g64.shape[0]):
+                        # |g'(S-B)g| <= max|S-B| * (sum |g_i|)^2: norm-wise, like the matrix comparison
+                        slack = 0.1 * TOL * smax * float(np.abs(g64[k]).sum()) ** 2
                         tr.add("bandit bonus " + " ".join(frac(float(x)) for x in g[k].tolist()),
-                               ("bonus", float(b_impl[k]), where))
+                               ("bonus", float(b_impl[k]), where, slack))
                     tr.expect.append(("argmax", dict(algo=algo, mu=mu.tolist(), gamma=float(case["gamma"]),
                                                      mask=op[2], action=a, n=g64.shape[0]), where))
                     tr.model_lines.append("bandit count")
@@ -335,20 +344,24 @@ def compare(chk: Check, tr: Trace):
     chk.corr["model_lines"] += len(tr.model_lines)
     diffs = []
     bonus_buf: list[float] = []
+    slack_buf: list[float] = []
     it = iter(out)
     for exp in tr.expect:
         if exp[0] == "argmax":
             cnt = next(it)                           # answer of "bandit count" (ignored: ghost state)
             meta = exp[1]
             b = np.array(bonus_buf[-meta["n"]:])
-            bonus_buf = []
+            e = np.array(slack_buf[-meta["n"]:])
+            bonus_buf, slack_buf = [], []
             if meta["algo"] == "NeuralUCB" and len(b) == meta["n"] and cnt.isdigit():
                 vals = np.array(meta["mu"]) + meta["gamma"] * np.sqrt(np.maximum(b, 0.0))
                 legal = np.ones(len(vals), bool) if meta["mask"] is None else (np.array(meta["mask"]).reshape(-1) == 1)
                 if legal.any():
                     best = vals[legal].max()
                     a = meta["action"]
-                    if not legal[a] or vals[a] < best - TOL * (1 + abs(best)):
+                    # float32 drift of the bonuses moves sqrt(b) by at most sqrt(b + e) - sqrt(b)
+                    drift = meta["gamma"] * float((np.sqrt(np.maximum(b, 0.0) + e) - np.sqrt(np.maximum(b, 0.0))).max())
+                    if not legal[a] or vals[a] < best - 2 * drift - TOL * (1 + abs(best)):
                         diffs.append(f"{exp[2]}: NeuralUCB chose arm {a} but mu + gamma*sqrt(exact bonus) = "
                                      f"{vals.tolist()} (legal {legal.tolist()})")
             continue
@@ -363,10 +376,12 @@ def compare(chk: Check, tr: Trace):
                 diffs.append(f"{exp[2]}: model bonus {ans!r}")
                 continue
             bonus_buf.append(b)
+            slack_buf.append(exp[3])
             if b < 0:
                 diffs.append(f"{exp[2]}: exact bonus negative {ans}")
-            if abs(b - exp[1]) > TOL * max(abs(b), 1e-12) + 1e-9:
-                diffs.append(f"{exp[2]}: g' sigma_inv g implementation {exp[1]:.9g} model {b:.9g}")
+            if abs(b - exp[1]) > exp[3] + 1e-12:
+                diffs.append(f"{exp[2]}: g' sigma_inv g implementation {exp[1]:.9g} model {b:.9g} "
+                             f"(allowed {exp[3]:.3g})")
         elif exp[0] == "mat":
             S = exp[1]
             try:
@@ -621,6 +636,7 @@ def selftest(chk: Check) -> None:
             _orig(self)
             if old is not None:
                 self.sigma_inv = old            # fault: the matrix is not re-created for the new layer
+        stale_init.__name__ = "init_params"     # mutation hooks are looked up by name
         cls.init_params = stale_init
         try:
             c = dict(base, algo=algo, ops=[["act", 1, None], ["mutate", "arch", seed], ["act", 5, None]])
